@@ -1004,3 +1004,96 @@ Proof.
   { intros y Hy. rewrite (M2 y Hy). apply md_of_filter_other. }
   rewrite Ty. destruct a; reflexivity.
 Qed.
+
+(* ------------------------------------------------------------------ the kernel on the arrays = the walk per segment
+   (ties K4, which speaks about one segment, to what the compiled function does with indptr / data) *)
+Lemma walk_length n seg P : length (fst (walk n seg P)) = length seg.
+Proof.
+  unfold walk. cbn [fst].
+  set (st := fold_left (fun st idx => walk_body seg st (nth idx P 0%Z)) (seq 0 n) (walk_init seg)).
+  assert (L : length (w_out st) = length seg).
+  { unfold st. generalize (seq 0 n). intros l.
+    assert (G : forall l s, length (w_out s) = length seg ->
+                length (w_out (fold_left (fun st idx => walk_body seg st (nth idx P 0%Z)) l s)) = length seg).
+    { induction l0 as [|i l0 IH]; intros s Hs; simpl; [exact Hs|]. apply IH.
+      unfold walk_body. cbn [w_out].
+      assert (A : forall fuel p s0, length (w_out s0) = length seg -> length (w_out (advance fuel seg p s0)) = length seg).
+      { induction fuel as [|fuel IHf]; intros p s0 H0; simpl; destruct (w_count_rem s0 <=? p - w_count_el s0)%Z; simpl; try exact H0.
+        apply IHf. unfold advance1. cbn [w_out]. rewrite upd_length. exact H0. }
+      apply A. exact Hs. }
+    apply G. reflexivity. }
+  rewrite app_length, repeat_length, upd_length, L.
+  destruct (Nat.le_gt_cases (S (w_el st)) (length seg)) as [H|H].
+  - rewrite firstn_length_le by (rewrite upd_length, L; exact H). lia.
+  - rewrite firstn_all2 by (rewrite upd_length, L; lia). rewrite upd_length, L. lia.
+Qed.
+
+Lemma sub_seg_length n seg draws : length (fst (fst (sub_seg n seg draws))) = length seg.
+Proof.
+  unfold sub_seg. destruct (zsum seg <? Z.of_nat n)%Z; cbn [fst]; [apply repeat_length|].
+  destruct draws as [|P rest]; cbn [fst]; [reflexivity|].
+  pose proof (walk_length n seg P) as L. destruct (walk n seg P) as [o ok]. exact L.
+Qed.
+
+Section KernelWo.
+  Variable n : nat.
+  Variable indptr : list nat.
+  Variable data : list Z.
+  Variable N : nat.
+  Hypothesis HL : length indptr = S N.
+  Hypothesis H0 : nth 0 indptr 0 = 0.
+  Hypothesis HM : forall i j, i <= j -> j <= N -> nth i indptr 0 <= nth j indptr 0.
+  Hypothesis HE : nth N indptr 0 = length data.
+
+  Let p (i : nat) := nth i indptr 0.
+  Let sl (i : nat) := slice data (p i) (p (S i)).
+  Let body := (fun (st : list Z * list (list Z) * bool) (i : nat) =>
+               let '(data, draws, ok) := st in
+               let start := nth i indptr 0 in let end_ := nth (S i) indptr 0 in
+               let '(o, draws', ok') := sub_seg n (slice data start end_) draws in
+               (splice data start end_ o, draws', ok && ok')).
+
+  Lemma kernel_wo_from : forall m k A draws ok,
+    length A = p k -> k + m = N ->
+    fold_left body (seq k m) (A ++ skipn (p k) data, draws, ok) =
+    (A ++ concat (fst (fst (seg_results n (map sl (seq k m)) draws ok))),
+     snd (fst (seg_results n (map sl (seq k m)) draws ok)),
+     snd (seg_results n (map sl (seq k m)) draws ok)).
+  Proof.
+    induction m as [|m IH]; intros k A draws ok LA Hk.
+    - simpl. assert (k = N) by lia. subst k. unfold p. rewrite HE, skipn_all, !app_nil_r. reflexivity.
+    - assert (Hm : p k <= p (S k)) by (unfold p; apply HM; lia).
+      assert (Es : slice (A ++ skipn (p k) data) (p k) (p (S k)) = sl k).
+      { unfold sl, slice. rewrite skipn_app, skipn_all2 by lia. rewrite LA, Nat.sub_diag. reflexivity. }
+      pose proof (sub_seg_length n (sl k) draws) as Lo.
+      destruct (sub_seg n (sl k) draws) as [[o draws'] ok'] eqn:Esub. cbn [fst snd] in Lo.
+      assert (Lsl : length (sl k) = p (S k) - p k).
+      { unfold sl, slice. rewrite firstn_length, skipn_length.
+        assert (p (S k) <= length data) by (rewrite <- HE; unfold p; apply HM; lia). lia. }
+      assert (Esp : splice (A ++ skipn (p k) data) (p k) (p (S k)) o = (A ++ o) ++ skipn (p (S k)) data).
+      { unfold splice. rewrite firstn_app, firstn_all2 by lia. rewrite LA, Nat.sub_diag. simpl firstn. rewrite app_nil_r.
+        rewrite skipn_app, (skipn_all2 A) by lia. rewrite LA. simpl app.
+        assert (G : forall (l : list Z) x y, skipn x (skipn y l) = skipn (y + x) l).
+        { intros l x y. revert l. induction y as [|y IHy]; intros l; simpl; [reflexivity|].
+          destruct l as [|z l]; [destruct x; reflexivity|]. apply IHy. }
+        rewrite G. replace (p k + (p (S k) - p k)) with (p (S k)) by lia. rewrite <- app_assoc. reflexivity. }
+      assert (Eb : body (A ++ skipn (p k) data, draws, ok) k = ((A ++ o) ++ skipn (p (S k)) data, draws', ok && ok')).
+      { unfold body. change (nth k indptr 0) with (p k). change (nth (S k) indptr 0) with (p (S k)).
+        rewrite Es, Esub, Esp. reflexivity. }
+      cbn [seq map fold_left seg_results]. rewrite Eb, Esub.
+      rewrite (IH (S k) (A ++ o) draws' (ok && ok')); [|rewrite app_length, LA, Lo, Lsl; lia|lia].
+      destruct (seg_results n (map sl (seq (S k) m)) draws' (ok && ok')) as [[os d''] ok'']. cbn [fst snd].
+      simpl concat. rewrite <- app_assoc. reflexivity.
+  Qed.
+
+  Theorem kernel_wo_segments draws :
+    kernel_wo n indptr data draws =
+    (concat (fst (fst (seg_results n (map sl (seq 0 N)) draws true))),
+     snd (fst (seg_results n (map sl (seq 0 N)) draws true)),
+     snd (seg_results n (map sl (seq 0 N)) draws true)).
+  Proof.
+    unfold kernel_wo. rewrite HL. replace (S N - 1) with N by lia.
+    pose proof (kernel_wo_from N 0 [] draws true) as G. unfold p at 1 2 in G. rewrite H0 in G.
+    simpl in G. apply G; reflexivity.
+  Qed.
+End KernelWo.
